@@ -23,6 +23,9 @@ CONFIGS = {
     "D": ["-std=gnu17", "-DUSE_CUSTOM_DTOSTRE=1"],
     "E": ["-std=c89"],
     "F": ["-std=gnu17", "-DUSE_UNITS_IMPERIAL=1"],
+    "G": ["-std=gnu17", "-funsigned-char"],
+    "H": ["-std=gnu17", "-DUSE_USER_ERROR_LIST=1", "-DUSE_FULL_ERROR_LIST=0",
+          '-DLIST_OF_USER_ERRORS=X(SCPI_ERROR_USER_POSITIVE,201,"User error above zero") X(SCPI_ERROR_USER_NEGATIVE,-1201,"User error below zero")'],
 }
 CONFIG_DESC = {
     "A": "Makefile default (-std=gnu17): info text on, malloc, snprintf",
@@ -31,6 +34,8 @@ CONFIG_DESC = {
     "D": "-DUSE_CUSTOM_DTOSTRE=1 (library float formatter)",
     "E": "-std=c89 (library fall-backs for snprintf/strndup/strnlen/strncasecmp; bool is unsigned char)",
     "F": "-DUSE_UNITS_IMPERIAL=1 (every optional group of the unit table compiled in)",
+    "G": "-funsigned-char (plain char unsigned, as on ARM EABI / PowerPC)",
+    "H": "-DUSE_USER_ERROR_LIST=1 with a two-row user list (one positive, one negative code), -DUSE_FULL_ERROR_LIST=0 (the minimal library list)",
 }
 
 
